@@ -1,13 +1,15 @@
 """C05 — memory is little-endian and byte-addressed; writes land at the end of the cycle."""
 from props import C19
+from props import C15
 import re
 from props.common_prog import judge_prog
 
-THEOREM_MODULES = ["Hcl.Theorems.C05", "Hcl.Theorems.Effects", "Hcl.Tie.Memory", "Hcl.Tie.Fixed", "Hcl.Tie.PinsStep"]
+THEOREM_MODULES = ["Hcl.Theorems.C05", "Hcl.Theorems.Effects", "Hcl.Tie.Memory", "Hcl.Tie.Fixed", "Hcl.Tie.PinsStep", "Hcl.Tie.PinsYo"]
 THEOREMS = {"Hcl.Theorems.Effects": ["C04_C05_accepted_effect", "portWrite_spec", "writeMem_effect", "writeReg_effect"], "Hcl.Tie.Memory": ["Tie.Memory.memoryReadText", "Tie.Memory.memoryWriteText"], "Hcl.Tie.Fixed": ["Tie.Fixed.fixedFunctions"], "Hcl.Theorems.C05": ["C05_read_spec", "C05_write_spec", "wrLE_hit", "wrLE_other", "C05_read_after_write",
                                  "C05_last_write_wins", "C05_untouched", "C05_read_port", "C05_instruction_port",
                                  "C05_write_port"],
-            "Hcl.Tie.PinsStep": ["Tie.PinsStep.pinStepWithOutput"]}
+            "Hcl.Tie.PinsStep": ["Tie.PinsStep.pinStepWithOutput"],
+            "Hcl.Tie.PinsYo": ["Tie.PinsYo.pinLoadLine", "Tie.PinsYo.pinLoadFrom"]}
 
 RULE = ("S-PROG memory profile: mem_addr/pc from {small constants, counter-derived, 0 - counter (top of the address space), "
         "random 64-bit}, read and write enables toggling over the cycles, random initial images (bytes near 0, near 2^64 "
@@ -32,4 +34,7 @@ def streams(tier, seed):
     q = tier == "quick"
     return [{"name": "prog-memory", "stream": "prog", "count": 600 if q else 20000, "extra": ("memory",), "judge": judge},
             # what the user sees goes through the command line and the two files: the real binary on accepted, rejected, big, not-UTF-8, bare-CR files, good and malformed images, all options and TIMEOUT forms (as in C19)
-            {"name": "cli", "stream": "cli", "count": 200 if q else 5000, "pygen": C19.pygen, "judge": C19.judge}]
+            {"name": "cli", "stream": "cli", "count": 200 if q else 5000, "pygen": C19.pygen, "judge": C19.judge},
+            # "else the loaded image": what memory holds before the first write is what the loader made of the .yo file (as in C15)
+            {"name": "yo", "stream": "yo", "count": 1500 if q else 40000, "judge": C15.judge},
+            {"name": "yo-malformed", "stream": "yo-malformed", "count": 2000 if q else 50000, "judge": C15.judge}]
